@@ -1,6 +1,6 @@
 CONSTANTS Graphs = {"selfl", "line", "tri"} T = 4 QE = {0, 1, 2, 3} QN = {0, 1, 2} NodeModes = {FALSE} NEs = {TRUE}
   Widths = {0} Cuts = {"none", "dist", "prob"} MaxOps = 1 SAMPLE = 240 Moves = {"m11"} EMIT = FALSE
-  ExhGraphs = {} Debugs = {FALSE}
+  ExhGraphs = {} Debugs = {FALSE} REUSE = FALSE
 SPECIFICATION Spec
 INVARIANT C19all
 CHECK_DEADLOCK FALSE
